@@ -219,7 +219,28 @@ def _hadronic_job(kw):
                                 out.add(a[:90])
         return out
 
-    return ("ok", sorted(massive_nc_atoms(below))[:3], len(massive_nc_atoms(above)))
+    # between two thresholds: above the pair threshold of the lightest massive quark of the scheme, below those of the heavier ones - the
+    # decision is per quark (a decision taken for one mass and remembered for the kinematic point serves the wrong quarks)
+    stale = []
+    if kw["fns"] == "FFNS" and kw["nfff"] in (3, 4) and kw["obs"].split("_")[1] in ("total", "light"):
+        regime = {"mc": +1, "mb": -1 if kw["nfff"] == 3 else +1, "mt": -1}
+        closed = [m for m, sg in regime.items() if sg < 0]
+        try:
+            between = O.fold_op(proj, R.Cell(**kw), below_threshold="fold", prepare=pair_threshold_regime(regime))
+        except O.FoldFailure as f:
+            return ("fold", f.outcome.status, f"{f.outcome.etype} {f.outcome.msg}"[:160])
+        for key, (vals, errs) in between.orders.items():
+            for row in vals:
+                for e in row:
+                    if isinstance(e, A.Rat):
+                        for a in e.atoms():
+                            if a.startswith("conv(") and ".heavy." in a and "_nc::" in a:
+                                ad = A.ATOMS.get(a)
+                                rsl = R.RSL_REGISTRY.get(ad.payload[1][0]) if ad is not None and ad.payload else None
+                                mass = rsl.attrs.get("_owner_m2hq", "") if rsl is not None else ""
+                                if any(m in mass for m in closed):
+                                    stale.append(f"{rsl.attrs.get('_owner')} built with {mass}")
+    return ("ok", sorted(massive_nc_atoms(below))[:3], len(massive_nc_atoms(above)), sorted(set(stale))[:3])
 
 
 def check_hadronic(rep, proj, tier):
@@ -239,9 +260,13 @@ def check_hadronic(rep, proj, tier):
             else:
                 rep.undecided("C09.hadronic", "", label, f"not foldable ({o[1]}): {o[2]}")
             continue
-        _, left, n_above = o
+        _, left, n_above, stale = o
         if n_above:
             n_nontrivial += 1
+        if stale:
+            rep.bad("C09.hadronic", "src/yadism/coefficient_functions/heavy/partonic_channel.py", label + "|between the thresholds",
+                    "above the pair threshold of the lightest massive quark and below those of the heavier ones, massive NC terms of a quark whose "
+                    "threshold is not reached remain: " + "; ".join(stale), key=label + "|between")
         rep.check(not left, "C09.hadronic", "src/yadism/coefficient_functions/heavy/partonic_channel.py", label,
                   f"below the pair threshold no massive NC quadrature remains ({n_above} present above threshold)",
                   f"massive NC coefficient functions still contribute below the hadronic pair threshold: {left}", key=label)
@@ -264,10 +289,10 @@ def pair_threshold_regime(sign):
                 return r
             try:
                 d = A.to_rat(a) - A.to_rat(b)
-                for diff in diffs:
+                for diff, mname in zip(diffs, ("mc", "mb", "mt")):
                     g = _proportional_sign(d, diff)
                     if g is not None:
-                        sg = sign * g
+                        sg = (sign[mname] if isinstance(sign, dict) else sign) * g  # one regime for all quarks, or one per quark
                         return {"Lt": sg < 0, "LtE": sg <= 0, "Gt": sg > 0, "GtE": sg >= 0, "Eq": False, "NotEq": True}.get(type(op).__name__)
             except (A.Undecided, ZeroDivisionError, TypeError):
                 return None
